@@ -1174,7 +1174,6 @@ void OPNMIDIplay::noteUpdate(size_t midCh,
     const double currentTone    = info.currentTone;
     const uint8_t vol     = info.vol;
     const size_t midiins = info.midiins;
-    const OpnInstMeta &ains = *info.ains;
     OpnChannel::Location my_loc;
     my_loc.MidCh = static_cast<uint16_t>(midCh);
     my_loc.note  = info.note;
@@ -1185,6 +1184,9 @@ void OPNMIDIplay::noteUpdate(size_t midCh,
             m_midiChannels[midCh].activenotes.erase(i);
         return;
     }
+
+    // Only now: the place-holder of a blank instrument has no instrument (ains == NULL)
+    const OpnInstMeta &ains = *info.ains;
 
     for(unsigned ccount = 0, ctotal = info.chip_channels_count; ccount < ctotal; ccount++)
     {
